@@ -86,8 +86,60 @@ def sweep_(draw):
                       "rows": draw(st.sampled_from([1, 3, 20])), "mode": draw(st.sampled_from(["list", "merge", "directory"]))}}
 
 
+@st.composite
+def catgrow_(draw):
+    """Files whose categorical column has different numbers of labels, not growing monotonically and crossing the int8
+    code width: the handle must report enough room for every row group, and each row group must read on its own
+    (reading them all at once is the recorded finding about per-file dictionaries; it is not attempted here)."""
+    counts = draw(st.sampled_from([[50, 200, 100], [200, 50, 100], [10, 130, 20], [128, 127, 129], [100, 200], [127, 128, 3, 300]]))
+    return {"catgrow": {"counts": counts, "mode": draw(st.sampled_from(["list", "directory", "merge"])),
+                        "form": draw(st.sampled_from(["default", "list"]))}}
+
+
 def strategy(tier):
-    return st.integers(0, 9).flatmap(lambda k: sweep_() if k == 0 else strategy_(tier == "thorough"))
+    return st.integers(0, 19).flatmap(lambda k: sweep_() if k in (0, 1) else catgrow_() if k == 2 else strategy_(tier == "thorough"))
+
+
+def _catgrow(case):
+    import fastparquet
+    import pandas as pd
+    cg = case["catgrow"]
+    counts = cg["counts"]
+    labels = ["catgrow", "mode:" + cg["mode"], "files:%d" % len(counts)]
+    frames_ = []
+    for i, n in enumerate(counts):
+        labs = ["L%d_%04d" % (i, j) for j in range(n)]
+        frames_.append(pd.DataFrame({"c": pd.Categorical(labs, categories=labs), "v": np.arange(n, dtype="int64") + 1000 * i}))
+    with common.Scratch() as d:
+        root = os.path.join(d, "ds")
+        os.makedirs(root)
+        paths = [os.path.join(root, "f%d.parquet" % i) for i in range(len(counts))]
+        for p, f in zip(paths, frames_):
+            fastparquet.write(p, f)
+        try:
+            if cg["mode"] == "list":
+                pf = fastparquet.ParquetFile(list(paths))
+            elif cg["mode"] == "directory":
+                pf = fastparquet.ParquetFile(root)
+            else:
+                fastparquet.writer.merge(list(paths))
+                pf = fastparquet.ParquetFile(root)
+            claimed = pf.categories
+        except Exception as e:
+            return viol("open_or_read_raised|catgrow|" + exc_sig(e), exc_detail(e), labels=labels)
+        if int(claimed.get("c", 0)) < max(counts):
+            return viol("categories_count|catgrow", "categories reports %r labels for 'c', one file holds %d" % (claimed.get("c"), max(counts)),
+                        labels=labels)
+        kw = {"categories": ["c"]} if cg["form"] == "list" else {}
+        for i in range(len(pf.row_groups)):
+            try:
+                piece = pf[i].to_pandas(**kw)
+            except Exception as e:
+                return viol("piece_read_raised|catgrow|" + exc_sig(e), "pf[%d].to_pandas(%r): %s" % (i, kw, exc_detail(e)), labels=labels)
+            k = int(piece["v"].iloc[0]) // 1000 if len(piece) else None
+            if k is None or piece["c"].astype(object).tolist() != frames_[k]["c"].astype(object).tolist():
+                return viol("piece_value|catgrow", "row group %d: labels differ from the file it came from" % i, labels=labels)
+    return ok(True, labels)
 
 
 def _footer_len(path):
@@ -168,6 +220,8 @@ def run_case(case):
     from fastparquet import writer as fwriter
     if "sweep" in case:
         return _footer_sweep(case)
+    if "catgrow" in case:
+        return _catgrow(case)
     files, shape, mode = case["files"], case["shape"], case["mode"]
     n = len(files)
     labels = ["shape:" + shape, "mode:" + mode, "files:%d" % n, "root:" + case["root"]]
@@ -302,7 +356,7 @@ def run_case(case):
 
 
 def shrink_moves(case):
-    if "sweep" in case:
+    if "sweep" in case or "catgrow" in case:
         return
     n = len(case["files"])
     if n > 1:
@@ -350,7 +404,7 @@ def shrink_moves(case):
 
 
 def abbreviate(case):
-    if "sweep" in case:
+    if "sweep" in case or "catgrow" in case:
         return case
     return {"files": [shrinkers.abbreviate_frame(f) for f in case["files"]], "shape": case["shape"], "pvals": case["pvals"],
             "mode": case["mode"], "root": case["root"], "order": case["order"], "mismatch": case["mismatch"]}
